@@ -18,7 +18,7 @@ TRUSTED_BASE = C01.TRUSTED_BASE
 ASSUMPTIONS = ["a method-level finding is identified by the line of the method's NAME (the statement does not fix it; the full pass records that line since 00fa4f2)", "helpers contain only assertion or plain calls; an assertion is a call whose lower-cased name starts with one of "
                "assert/should/check/maynotbe/is/spec/verify (the documented list)"]
 
-def gen_test_class(rng, pkg, name, path):
+def gen_test_class(rng, pkg, name, path, foreign=None):
     imports = [J.Import("org.junit.Test"), J.Import("org.junit.Ignore")]
     static_assert = rng.random() < 0.7
     if static_assert:
@@ -65,6 +65,9 @@ def gen_test_class(rng, pkg, name, path):
                 stmts.append(("call", J.ExprS(J.Call(J.Name("repo"), "save", [J.Lit("1")]))))
             elif kind == "new":
                 stmts.append(("new", J.Local(J.T("Foo"), "f%d" % len(stmts), J.New(J.T("Foo"), []))))
+            elif kind == "foreign" and foreign:
+                # a method of ANOTHER analysed test class, called by name: an ordinary call, not a helper of this class
+                stmts.append(("call", J.ExprS(J.Call(J.Name(foreign), rng.choice(["roundTrip", "dump"]), []))))
             elif kind == "helper" and helpers:
                 hm, ha = rng.choice(helpers)
                 stmts.append(("helper_assert" if ha else "helper_plain", J.ExprS(J.Call(None, hm.name, []))))
@@ -79,9 +82,12 @@ def gen_test_class(rng, pkg, name, path):
             # no direct assertion: several helpers of the class, asserting and plain ones in any order
             for _ in range(rng.randint(2, 4)): add("helper")
             if rng.random() < 0.5: add("call")
+        elif shape < 0.6 and foreign:
+            for _ in range(rng.randint(1, 2)): add("foreign")            # only calls into the other class
+            if rng.random() < 0.5: add("call")
         else:
             for _ in range(rng.randint(1, 6)):
-                add(rng.choice(["print", "print", "sleep", "redundant", "assert", "call", "call", "new", "helper"]))
+                add(rng.choice(["print", "print", "sleep", "redundant", "assert", "call", "call", "new", "helper"] + (["foreign", "foreign"] if foreign else [])))
         rng.shuffle(stmts)
         m = J.Method("test%d" % i if (test or ignore) else "util%d" % i, None, [], [s for _, s in stmts], mods)
         tests.append((m, test, ignore, stmts))
@@ -113,8 +119,20 @@ def gen(rng):
     maven = rng.random() < 0.5
     units, exps = [], []
     n = rng.randint(1, 4)
+    foreign = None
+    if rng.random() < 0.4:
+        # a class of the test tree without tests of its own, whose methods assert / print / sleep
+        foreign = "FixturesTest"
+        fpkg = "com.acme"
+        fpath = ("src/test/java/" if maven else "") + fpkg.replace(".", "/") + "/" + foreign + ".java"
+        fm = [J.Method("roundTrip", None, [], [J.ExprS(J.Call(None, "assertTrue", [J.Lit("true")])),
+                                                J.ExprS(J.Call(J.FieldAcc(J.Name("System"), "out"), "println", [J.Lit('"f"')]))], ["public", "static"]),
+              J.Method("dump", None, [], [J.ExprS(J.Call(J.Name("Thread"), "sleep", [J.Lit("5")]))], ["public", "static"])]
+        fu = J.Unit(fpath, fpkg, [], "class", foreign, fm)
+        J.render(fu, rng, "std")
+        units.append(fu); exps.append([fpath, "1", []])
     for i in range(n):
-        pkg = rng.choice(["com.acme", "com.acme.core"])
+        pkg = "com.acme" if foreign else rng.choice(["com.acme", "com.acme.core"])
         r = rng.random()
         if r < 0.6:
             name = "K%d" % i + rng.choice(["Test", "Tests"])
@@ -128,7 +146,7 @@ def gen(rng):
             name = "Prod%d" % i
             path = ("src/main/java/" if maven else "") + pkg.replace(".", "/") + "/" + name + ".java"
             is_test = False
-        u, xm = gen_test_class(rng, pkg, name, path)
+        u, xm = gen_test_class(rng, pkg, name, path, foreign if is_test else None)
         units.append(u); exps.append([path, "1" if is_test else "0", xm])
     extra = []
     if maven and rng.random() < 0.5:
